@@ -53,6 +53,10 @@ pub enum OpKind {
     LLen,
     /// EVAL: atomically read the value and write a new one (script = GETSET)
     EvalSwap(Vec<u8>),
+    /// SET k v NX / XX / GET through the generic path (option flags must survive whatever route the command takes)
+    SetOptNx(Vec<u8>),
+    SetOptXx(Vec<u8>),
+    SetOptGet(Vec<u8>),
 }
 
 #[derive(Clone, Debug, PartialEq, Eq, Hash)]
@@ -108,6 +112,13 @@ pub fn apply(st: &KeyState, op: &OpKind) -> (KeyState, Tree) {
         (OpKind::GetSet(v), KeyState::Str(s)) | (OpKind::EvalSwap(v), KeyState::Str(s)) => (KeyState::Str(v.clone()), bulk(s)),
         (OpKind::GetSet(_), KeyState::List(_)) => (st.clone(), wrongtype()),
         (OpKind::EvalSwap(_), KeyState::List(_)) => (st.clone(), Tree::Error(b"ERR".to_vec())),
+        (OpKind::SetOptNx(v), KeyState::Nil) => (KeyState::Str(v.clone()), ok),
+        (OpKind::SetOptNx(_), _) => (st.clone(), Tree::Bulk(None)),
+        (OpKind::SetOptXx(_), KeyState::Nil) => (st.clone(), Tree::Bulk(None)),
+        (OpKind::SetOptXx(v), _) => (KeyState::Str(v.clone()), ok),
+        (OpKind::SetOptGet(v), KeyState::Nil) => (KeyState::Str(v.clone()), Tree::Bulk(None)),
+        (OpKind::SetOptGet(v), KeyState::Str(s)) => (KeyState::Str(v.clone()), bulk(s)),
+        (OpKind::SetOptGet(_), KeyState::List(_)) => (st.clone(), wrongtype()),
         (OpKind::SetNx(v), KeyState::Nil) => (KeyState::Str(v.clone()), Tree::Int(1)),
         (OpKind::SetNx(_), _) => (st.clone(), Tree::Int(0)),
         (OpKind::Del, KeyState::Nil) => (KeyState::Nil, Tree::Int(0)),
@@ -231,7 +242,13 @@ fn parse_opkind(s: &str) -> OpKind {
         let inner = s.split('[').nth(1).and_then(|x| x.split(']').next()).unwrap_or("");
         inner.split(',').filter_map(|x| x.trim().parse::<u8>().ok()).collect()
     };
-    if s.starts_with("GetSet") {
+    if s.starts_with("SetOptNx") {
+        OpKind::SetOptNx(arg(s))
+    } else if s.starts_with("SetOptXx") {
+        OpKind::SetOptXx(arg(s))
+    } else if s.starts_with("SetOptGet") {
+        OpKind::SetOptGet(arg(s))
+    } else if s.starts_with("GetSet") {
         OpKind::GetSet(arg(s))
     } else if s.starts_with("Get") {
         OpKind::Get
@@ -275,6 +292,15 @@ fn tree_from(v: &Value) -> Tree {
     }
 }
 
+/// key index -> name: plain, hash-tagged ({...} must not give a key a second home on any path) and long names
+pub fn key_name(i: usize) -> String {
+    match i {
+        1 => "{user:1}:balance".to_string(),
+        3 => "cart:{7}:items-with-a-rather-long-key-name".to_string(),
+        _ => format!("lk{}", i),
+    }
+}
+
 const SWAP_SCRIPT: &str = "local v = redis.call('GET', KEYS[1]); redis.call('SET', KEYS[1], ARGV[1]); return v";
 
 async fn do_op(st: &ShardedActorState, key: &str, op: &OpKind, via: &Via) -> Tree {
@@ -300,6 +326,18 @@ async fn do_op(st: &ShardedActorState, key: &str, op: &OpKind, via: &Via) -> Tre
                 OpKind::LPop => Command::LPop(k),
                 OpKind::LLen => Command::LLen(k),
                 OpKind::EvalSwap(v) => Command::Eval { script: SWAP_SCRIPT.to_string(), keys: vec![k], args: vec![SDS::new(v.clone())] },
+                OpKind::SetOptNx(v) | OpKind::SetOptXx(v) | OpKind::SetOptGet(v) => Command::Set {
+                    key: k,
+                    value: SDS::new(v.clone()),
+                    ex: None,
+                    px: None,
+                    exat: None,
+                    pxat: None,
+                    nx: matches!(op, OpKind::SetOptNx(_)),
+                    xx: matches!(op, OpKind::SetOptXx(_)),
+                    get: matches!(op, OpKind::SetOptGet(_)),
+                    keepttl: false,
+                },
             };
             st.execute(&cmd).await
         }
@@ -332,7 +370,10 @@ fn gen_op(rng: &mut Rng, client: usize, ctr: &mut u32, key: usize, lua: bool) ->
             _ => (OpKind::Get, via),
         }
     } else {
-        match rng.gen_range(0..20) {
+        match rng.gen_range(0..24) {
+            20 | 21 => (OpKind::SetOptNx(uniq), Via::Generic),
+            22 => (OpKind::SetOptXx(uniq), Via::Generic),
+            23 => (OpKind::SetOptGet(uniq), Via::Generic),
             0..=4 => (OpKind::Get, via),
             5..=8 => (OpKind::Set(uniq), via),
             9 | 10 => (OpKind::Incr, Via::Generic),
@@ -364,7 +405,7 @@ async fn run_history(cfg: &HistCfg, seed: u64) -> Vec<Rec> {
             let mut ctr = 0u32;
             for _ in 0..n {
                 let key = rng.gen_range(0..keys);
-                let kname = format!("lk{}", key);
+                let kname = key_name(key);
                 let (op, via) = gen_op(&mut rng, c, &mut ctr, key, lua);
                 let call = stamp();
                 let fut = do_op(&st, &kname, &op, &via);
@@ -417,7 +458,7 @@ fn judge_opt(rep: &mut Report, hist: &[Rec], cfg_json: &Value, pid: &str, po: bo
         let written: HashSet<Vec<u8>> = ops
             .iter()
             .filter_map(|o| match &o.op {
-                OpKind::Set(v) | OpKind::GetSet(v) | OpKind::SetNx(v) | OpKind::LPush(v) | OpKind::EvalSwap(v) => Some(v.clone()),
+                OpKind::Set(v) | OpKind::GetSet(v) | OpKind::SetNx(v) | OpKind::LPush(v) | OpKind::EvalSwap(v) | OpKind::SetOptNx(v) | OpKind::SetOptXx(v) | OpKind::SetOptGet(v) => Some(v.clone()),
                 _ => None,
             })
             .collect();
@@ -583,6 +624,9 @@ fn conn_frame(key: &str, op: &OpKind) -> Vec<u8> {
         OpKind::LPop => myresp::frame(&[b"LPOP", k]),
         OpKind::LLen => myresp::frame(&[b"LLEN", k]),
         OpKind::EvalSwap(v) => myresp::frame(&[b"EVAL", SWAP_SCRIPT.as_bytes(), b"1", k, v]),
+        OpKind::SetOptNx(v) => myresp::frame(&[b"SET", k, v, b"NX"]),
+        OpKind::SetOptXx(v) => myresp::frame(&[b"SET", k, v, b"XX"]),
+        OpKind::SetOptGet(v) => myresp::frame(&[b"SET", k, v, b"GET"]),
     }
 }
 
@@ -647,7 +691,7 @@ async fn run_conn_history(cfg: &ConnCfg, seed: u64) -> ConnOutcome {
                 }
                 let mut bytes = vec![];
                 for (k, op) in &ops {
-                    bytes.extend_from_slice(&conn_frame(&format!("lk{}", k), op));
+                    bytes.extend_from_slice(&conn_frame(&key_name(*k), op));
                 }
                 // hand the bytes over whole or in 2-3 fragments with scheduler turns in between
                 let cuts = match rng.gen_range(0..4) { 0 => 1, 1 => 2, _ => 0 };
